@@ -81,7 +81,9 @@ def check(ctx):
     f = ctx.fn("R-EXIT", JS, "scope/guard-released-after-join")
     if f is not None:
         js = ctx.an.sites(f, Call(r"may::join::JoinHandle::join", transitive=False), "must")
-        gd = set(pt for pt in f.points() if f.is_term(pt) and f.node(pt)["t"] == "drop" and "CancelDisableGuard" in f.node(pt)["ty"])
+        gd = set(pt for pt in f.points() if f.is_term(pt) and ((f.node(pt)["t"] == "drop" and "CancelDisableGuard" in f.node(pt)["ty"]) or
+                 (f.node(pt)["t"] == "call" and (callee_name(f.node(pt)) or "") in ("std::mem::drop", "core::mem::drop") and f.node(pt)["args"] and not f.is_cleanup(pt.bb)
+                  and "CancelDisableGuard" in (type_of_place(f, (f.node(pt)["args"][0].get("m") or f.node(pt)["args"][0].get("c") or {"l": 0, "p": []})) or ""))))
         r = ctx.an.reach(f, [Point(0, 0)], blocked=js)
         bad = [g for g in gd if g in r]
         ctx.ob("R-EXIT", JS, "scope/guard-released-after-join", bool(gd) and not bad, "the cancel-disable guard lives across the join" if gd and not bad else
@@ -96,7 +98,13 @@ def check(ctx):
         ctx.order(gid, GUARD, JH, "scope/every-child-join-cancel-masked", "a join of a scoped child outside JoinState::join also runs with the owner's cancel disabled", rule="R-EXIT")
         g = ctx.prog.fn(gid)
         js = ctx.an.sites(g, JH, "must")
-        gd = set(pt for pt in g.points() if g.is_term(pt) and g.node(pt)["t"] == "drop" and "CancelDisableGuard" in g.node(pt)["ty"] and not g.is_cleanup(pt.bb))
+        def _guard_drop(pt, g=g):
+            if not g.is_term(pt) or g.is_cleanup(pt.bb): return False
+            n = g.node(pt)
+            if n["t"] == "drop": return "CancelDisableGuard" in n["ty"]
+            return (n["t"] == "call" and (callee_name(n) or "") in ("std::mem::drop", "core::mem::drop") and n["args"]
+                    and "CancelDisableGuard" in (type_of_place(g, (n["args"][0].get("m") or n["args"][0].get("c") or {"l": 0, "p": []})) or ""))
+        gd = set(pt for pt in g.points() if _guard_drop(pt))
         r = ctx.an.reach(g, [Point(0, 0)], blocked=js)
         early = [x for x in gd if x in r]
         ctx.ob("R-EXIT", gid, "scope/every-child-join-guard-lives-across", bool(gd) and not early, "the cancel-disable guard lives across the join" if gd and not early else
@@ -166,10 +174,15 @@ def check(ctx):
         for pt, caught in shared.user_body_sites(ctx, f):
             t = f.node(pt)
             rn = ctx.an.reach(f, ctx.an.after(f, pt))
-            okn = any(f.is_term(p) and not f.is_cleanup(p.bb) and f.node(p)["t"] == "drop" and "may::cqueue::Cqueue" in f.node(p)["ty"] for p in rn)
             # every path from the body to the return drops the Cqueue (in normal context)
-            drops = set(p for p in f.points() if f.is_term(p) and not f.is_cleanup(p.bb) and f.node(p)["t"] == "drop" and "may::cqueue::Cqueue" in f.node(p)["ty"])
-            okn = okn and not any(x in ctx.an.reach(f, ctx.an.after(f, pt), blocked=drops) for x in f.ret_points())
+            def _is_drop(p):
+                if not f.is_term(p) or f.is_cleanup(p.bb): return False
+                n = f.node(p)
+                if n["t"] == "drop": return "may::cqueue::Cqueue" in n["ty"]
+                # `drop(cqueue)` written out: the value is moved into mem::drop
+                return n["t"] == "call" and (callee_name(n) or "") in ("std::mem::drop", "core::mem::drop") and n["args"] and "may::cqueue::Cqueue" in (type_of_place(f, (n["args"][0].get("m") or n["args"][0].get("c") or {"l": 0, "p": []})) or "")
+            drops = set(p for p in f.points() if _is_drop(p))
+            okn = any(p in rn for p in drops) and not any(x in ctx.an.reach(f, ctx.an.after(f, pt), blocked=drops) for x in f.ret_points())
             if caught: oku = okn          # (F36) a panic of the body is caught: the drop happens on the normal path, then the unwinding resumes
             elif isinstance(t.get("uw"), int):
                 ru = ctx.an.reach(f, [Point(t["uw"], 0)], unwind=True)
